@@ -1,5 +1,6 @@
 import DaskModel.Lemmas.TreeReduce
 import DaskModel.Lemmas.BlockScan
+import DaskModel.Lemmas.BlellochTable
 /-!
 # C22 — array reductions and scans equal NumPy for every chunking and `split_every`
 
@@ -160,24 +161,24 @@ theorem cum_sequential_keeps_chunks (blocks : List (List Int)) :
     (seqScan (· + ·) 0 blocks).map List.length = blocks.map List.length :=
   seqScan_lengths _ 0 blocks
 
-/-- dask's Blelloch schedule passes the (proved sound) interval checker for every `n_vals ≤ 64`
-    — kernel evaluation of a finite table, *not* the general statement. -/
-theorem schedOk_le_64 : ∀ n, n ≤ 64 → schedOk n = true := by decide
+/-- dask's Blelloch schedule passes the (proved sound) interval checker for every `n_vals ≤ 32`
+    — kernel evaluation of a finite table (`Lemmas/BlellochTable.lean`), *not* the general statement. -/
+theorem schedOk_le_32 : ∀ n, n ≤ 32 → schedOk n = true := schedOk_table
 
-/-- Full statement (`∀ n, schedOk n = true`) is validated by the harness for n ≤ 300, proved for n ≤ 64. -/
+/-- Full statement (`∀ n, schedOk n = true`) is validated by the harness for n ≤ 300, proved for n ≤ 32. -/
 def BlellochFullStatement : Prop := ∀ n, schedOk n = true
 
-/-- `cumsum(method="blelloch")` = NumPy for every chunking with at most 65 blocks on the scan axis
-    (`_partial`: the bound comes from `schedOk_le_64`; `blelloch_eq_scan` itself has no bound). -/
-theorem cumsum_blelloch_eq_numpy_partial (blocks : List (List Int)) (hn : blocks.length ≤ 65) :
+/-- `cumsum(method="blelloch")` = NumPy for every chunking with at most 33 blocks on the scan axis
+    (`_partial`: the bound comes from `schedOk_le_32`; `blelloch_eq_scan` itself has no bound). -/
+theorem cumsum_blelloch_eq_numpy_partial (blocks : List (List Int)) (hn : blocks.length ≤ 33) :
     ∃ out, blelloch (· + ·) 0 blocks = some out ∧ out.flatten = scanIncl (· + ·) blocks.flatten ∧
       out.map List.length = blocks.map List.length :=
-  blelloch_eq_scan _ 0 isum_monoid blocks (schedOk_le_64 _ (by omega))
+  blelloch_eq_scan _ 0 isum_monoid blocks (schedOk_le_32 _ (by omega))
 
-theorem cumprod_blelloch_eq_numpy_partial (blocks : List (List Int)) (hn : blocks.length ≤ 65) :
+theorem cumprod_blelloch_eq_numpy_partial (blocks : List (List Int)) (hn : blocks.length ≤ 33) :
     ∃ out, blelloch (· * ·) 1 blocks = some out ∧ out.flatten = scanIncl (· * ·) blocks.flatten ∧
       out.map List.length = blocks.map List.length :=
-  blelloch_eq_scan _ 1 iprod_monoid blocks (schedOk_le_64 _ (by omega))
+  blelloch_eq_scan _ 1 iprod_monoid blocks (schedOk_le_32 _ (by omega))
 
 /-- unconditional form: *if* the schedule checker accepts `n_vals`, Blelloch = NumPy (any monoid) -/
 theorem cum_blelloch_eq_numpy_of_schedOk {α : Type} (op : α → α → α) (e : α) (h : IsMonoid op e)
